@@ -56,6 +56,7 @@ fn main() {
         "C03" => props::c03::run(cx),
         "C04" => props::c04::run(cx),
         "C05" => props::c05::run(cx),
+        "C06" => props::c06::run(cx),
         "C07" => props::c07::run(cx),
         "C08" => props::c08::run(cx),
         "C09" => props::c09::run(cx),
